@@ -18,7 +18,8 @@ from lib_text import Ref
 PROPERTY = "C05"
 
 # CODE VARIANT FLAGS  (1 = rich 9.10.0 as released, 0 = repaired = what /repo contains now: fixes 0149e10, ba4c9a6, 3a84457, b5c0e99,
-#                      aad03fe, 9ca68f6 (the former pending_fixes/C05-*.diff); see Model/Text.lean `Variant`)
+#                      aad03fe, 9ca68f6 (the former pending_fixes/C05-*.diff); see Model/Text.lean `Variant`; plus the two separate
+#                      request arguments RSTRIP_END_CHARS (fix f5f2be9) and SPLIT_ENDSWITH (fix b61fef8) below.  All eight are 0.)
 CTOR_LEN = 0  # Text.__init__: _length = len(text) before control codes are stripped (pre-finding F1)
 CROP_ENDS = 0  # Text.right_crop(0) erases the text; right_crop(n > len) makes _length negative
 STYLIZE_NEG = 0  # Text.stylize(start < -len) stores a negative span start; render repeats characters / raises
@@ -28,8 +29,9 @@ ALIGN_NEG = 0  # Text.align pads by a negative excess (text wider than the width
 RSTRIP_END_CHARS = 0  # 1 = as found: Text.rstrip_end compares the CHARACTER count with the cell width; 0 = fix f5f2be9 (in /repo now; was
 #                       pending_fixes/C08-rstrip-end-counts-cells.diff) makes it cell_len; separate request argument of text_rstrip_end, Lean: first argument of Text.rstripEndW
 RSTRIP_END_CHARS = int(__import__("os").environ.get("VERIF_C05_RSTRIP_END_CHARS", RSTRIP_END_CHARS))  # development aid, as VERIF_C05_FLAGS
-SPLIT_ENDSWITH = 0  # Text.split drops the last line when text.endswith(separator) - for a separator that overlaps itself ("aaa".split("aa")) that
-#                     line is not blank and characters are lost; 0 = pending_fixes/C05-split-overlapping-separator.diff (drop it when it is blank).
+SPLIT_ENDSWITH = 0  # 1 = as found: Text.split drops the last line when text.endswith(separator) - for a separator that overlaps itself
+#                     ("aaa".split("aa")) that line is not blank and characters are lost; 0 = fix b61fef8 (in /repo now; was
+#                     pending_fixes/C05-split-overlapping-separator.diff): drop it when it is blank.
 #                     Separate request argument of text_split, Lean: first argument of Text.splitW
 SPLIT_ENDSWITH = int(__import__("os").environ.get("VERIF_C05_SPLIT_ENDSWITH", SPLIT_ENDSWITH))  # development aid
 FLAGS = "".join(str(x) for x in (CTOR_LEN, CROP_ENDS, STYLIZE_NEG, GETITEM, DIVIDE_ORDER, ALIGN_NEG))
@@ -768,7 +770,7 @@ def run(ctx):
         "'same effective style' is judged modulo the laws every style algebra has: \"\" is the identity and s+s = s",
         "domain of the property: spans given to the constructor lie inside the stripped text (0 <= start <= end <= len); "
         "pad / crop counts, widths and set_length arguments are >= 0; divide offsets are non-decreasing and within the text; "
-        "split separators have no proper border (every separator rich itself uses is a single character); "
+        "split separators are non-empty (self-overlapping ones are inside the domain since fix b61fef8; an empty one raises AssertionError); "
         "append_tokens / pad characters / plain-setter strings carry no strip-control character (they are not stripped by rich); tab size >= 1",
         "cell widths (truncate / align) are rich.cells' own (property C13)",
         "regex highlighters are span sources: their spans are checked to lie inside the text and are then given to the model",
@@ -807,7 +809,8 @@ def run(ctx):
         t0, _r0 = build((s, "", [], None, 8))
         ctx.check(py_ans(lambda: t0[::2]) == ("err", "TypeError") and py_ans(lambda: t0[::-1]) == ("err", "TypeError"), "__getitem__(slice)", s,
                   "a slice with a step must raise TypeError (documented: not supported)")
-    # indentation guides: every string <= 5 over an alphabet with the classes detect_indentation / with_indent_guides branch on
+    # indentation guides: every string of <= 4 characters over the first three, and of <= 3 over all six, members of an alphabet with
+    # the classes detect_indentation / with_indent_guides branch on
     # (U+0020, a non-space, newline, tab, two non-ASCII whitespace characters that must NOT count as indentation)
     ind_alpha = [" ", "a", "\n", "\t", "\u3000", "\xa0"]
     ind_strings = ["".join(p) for k in range(0, 5) for p in itertools.product(ind_alpha[:3], repeat=k)]
@@ -870,7 +873,7 @@ def run(ctx):
     ctx.rule = (
         "1) single operations, bounded-exhaustive: %d small initial texts (strings %r x 4 span sets incl. duplicated spans x 2 base styles) x every "
         "argument inside/at/beyond both ends (indices -n-2..n+2, counts 0..n+2, every sorted offset tuple of <= 3); 2) %d malformed span / offset cases "
-        "(model-vs-code only); 3) %d seeded random histories of 1..12 operations over 27 operation kinds, each step compared model-vs-code (state + "
+        "(model-vs-code only); 3) %d seeded random histories of 1..12 operations over 31 operation kinds, each step compared model-vs-code (state + "
         "rendering) and against the reference styled string; distinct = distinct canonical requests" % (len(small_strings) * 8, small_strings, n_mal, n_hist)
     )
 
@@ -915,8 +918,9 @@ MANIFEST = {
     "assemble, divide, split at piece level for EVERY non-empty separator with both flags both ways (cut points = leftmost non-overlapping "
     "occurrences), expand_tabs with the exact blank arithmetic (tab -> ts - col % ts blanks, first in the tab's style, multi-line), stylize "
     "(exact slice semantics), copy_styles / highlighters; styling-only operations never change characters or len(). Eight defects of rich "
-    "9.10.0 are carried as variant flags with machine-checked witnesses (old_* theorems); seven are repaired in /repo, the eighth "
-    "(split with a self-overlapping separator) has pending_fixes/C05-split-overlapping-separator.diff. "
+    "9.10.0 are carried as variant flags (ten machine-checked witnesses, the old_* theorems, for seven of them; the eighth, rstrip_end's "
+    "character count, is property C08's); all eight are repaired in /repo now (fix: commits 0149e10, ba4c9a6, 3a84457, b5c0e99, aad03fe, "
+    "9ca68f6, f5f2be9 and, for split with a self-overlapping separator, b61fef8). "
     "Tie: 33 driver entry points compared state-by-state (plain, _length, spans, style, attributes and the render() segments) with real "
     "rich.text.Text objects on ~130k (quick) / ~1M (thorough) generated requests per run; independently a reference styled string undergoes "
     "'the same operation on an ordinary string' and is compared with plain / len() / render() after every step of every history "
@@ -924,9 +928,13 @@ MANIFEST = {
     "seeded random histories of 1..12 operations over 31 operation kinds, shrunk on failure); every earlier object of a history (receivers, "
     "operands, sibling pieces) is re-observed after every later step and operations documented to return a new Text must not return their "
     "receiver, so aliasing is visible.",
-    "note": "split_view is about Text.splitW false (the repaired last-line rule); split_released_eq_repaired proves that today's code "
-    "(SPLIT_ENDSWITH = 1) is the same function for every separator that does not overlap itself (all that rich itself uses); for a "
-    "self-overlapping separator today's code loses characters (old_split_overlapping_separator, finding split-overlapping-separator). "
+    "note": "Variant flags, all 0 (= repaired = what /repo contains now): CTOR_LEN, CROP_ENDS, STYLIZE_NEG, GETITEM, DIVIDE_ORDER, ALIGN_NEG "
+    "(the six fields of Variant), RSTRIP_END_CHARS (fix f5f2be9), SPLIT_ENDSWITH (fix b61fef8); known_findings.txt has no `known:` line for "
+    "C05, so the check prints no KNOWN-FINDING line. "
+    "split_view is about Text.splitW false (the repaired last-line rule, in /repo since fix b61fef8); split_released_eq_repaired proves that "
+    "rich 9.10.0 as found (before that fix; SPLIT_ENDSWITH = 1) is the same function for every separator that does not overlap itself (all "
+    "that rich itself uses); for a self-overlapping separator the code as found lost characters (old_split_overlapping_separator, finding "
+    "split-overlapping-separator, fixed). "
     "fit, with_indent_guides and detect_indentation are modelled and compared (model-vs-code and against an independent oracle), they have no "
     "theorem. divide_view is proved in Lemmas/WrapDivide.lean (built by property C02 on this model) and imported, as are two helper lemmas "
     "about one-character separators. rstrip_end's amount (RSTRIP_END_CHARS / Text.rstripEndW) is pinned by model-vs-code only. "
